@@ -86,7 +86,11 @@ class Span(NamedTuple):
 
         Includes lines that are partially covered.
         """
-        lines = self.text.splitlines(keepends=True)
+        # Lines end with "\n", as they do for `Position.line_col()`.
+        *head, tail = self.text.split("\n")
+        lines = [line + "\n" for line in head]
+        if tail:
+            lines.append(tail)
         start_line_number, _ = self.start_pos().line_col()
         end_line_number, _ = self.end_pos().line_col()
         return lines[start_line_number - 1 : end_line_number]
@@ -107,24 +111,8 @@ class Position(NamedTuple):
         Returns:
             A tuple (line_number, column_number), both 1-based.
         """
-        lines = self.text.splitlines(keepends=True)
-        cumulative_length = 0
-        target_line_index = -1
-
-        for i, line in enumerate(lines):
-            cumulative_length += len(line)
-            if self.pos < cumulative_length:
-                target_line_index = i
-                break
-
-        if target_line_index == -1:
-            return len(lines) + 1, 1
-
-        # 1-based
-        line_number = target_line_index + 1
-        column_number = (
-            self.pos - (cumulative_length - len(lines[target_line_index])) + 1
-        )
+        line_number = self.text.count("\n", 0, self.pos) + 1
+        column_number = self.pos - self.text.rfind("\n", 0, self.pos)
         return line_number, column_number
 
     def line_of(self) -> str:
